@@ -226,6 +226,7 @@ func swapIdx(r [27]int) [27]int {
 }
 
 type runLog struct {
+	pcs       []int // CPU.PC as a device sees it at each memory access of the Step
 	idxMoved  int // the OTHER index register was seen changed by a device during the Step (at some access)
 	pre, post [27]int
 	halt      bool
@@ -240,7 +241,9 @@ func runOnce(is *InitSpec, w *bufio.Writer) runLog {
 	moved := 0
 	ix0, iy0 := uint16(is.R[16])<<8|uint16(is.R[17]), uint16(is.R[18])<<8|uint16(is.R[19])
 	first := -1
+	var pcs []int
 	m.Mem.OnAny = func() {
+		pcs = append(pcs, int(m.CPU.PC))
 		// which form is it? the byte at PC when the Step starts
 		if first < 0 {
 			first = int(m.Mem.Inner.Get(uint16(is.R[21])))
@@ -262,7 +265,7 @@ func runOnce(is *InitSpec, w *bufio.Writer) runLog {
 		}
 		m.CPU.Step()
 	}
-	l := runLog{pre: is.R, post: Regs(&m.CPU.States), halt: m.CPU.HALT, idxMoved: moved}
+	l := runLog{pre: is.R, post: Regs(&m.CPU.States), halt: m.CPU.HALT, idxMoved: moved, pcs: pcs}
 	l.rd = append(l.rd, m.Mem.Rd...)
 	l.wr = append(l.wr, m.Mem.Wr...)
 	if m.IO != nil {
@@ -273,8 +276,8 @@ func runOnce(is *InitSpec, w *bufio.Writer) runLog {
 }
 
 func (l runLog) json() string {
-	return fmt.Sprintf(`{"pre":%s,"post":%s,"h":%d,"rd":%s,"wr":%s,"pio":%s,"md":%s,"moved":%d}`,
-		jInts(l.pre[:]), jInts(l.post[:]), b2i(l.halt), jU16(l.rd), jPairs(l.wr), jTriples(l.pio), jPairs(l.md), l.idxMoved)
+	return fmt.Sprintf(`{"pre":%s,"post":%s,"h":%d,"rd":%s,"wr":%s,"pio":%s,"md":%s,"moved":%d,"pcs":%s}`,
+		jInts(l.pre[:]), jInts(l.post[:]), b2i(l.halt), jU16(l.rd), jPairs(l.wr), jTriples(l.pio), jPairs(l.md), l.idxMoved, jInts(l.pcs))
 }
 
 // EmitPair runs the DD form (given), the mirrored FD form, and both again with
